@@ -12,7 +12,9 @@ import json, os, subprocess, sys
 from concurrent.futures import ThreadPoolExecutor
 VERIF = os.path.dirname(os.path.dirname(os.path.abspath(__file__)))
 CHECKS_FOR = {'C01-B': ['C01', 'C03'], 'C02-B': ['C02', 'C03'],
-              'C03-B': ['C03', 'C18'], 'C04-A': ['C04', 'C03']}
+              'C03-B': ['C03', 'C18'], 'C04-A': ['C04', 'C03'],
+              'C01-C': ['C01', 'C03'], 'C02-C': ['C02', 'C03'],
+              'C08-C': ['C08', 'C09'], 'C11-D': ['C11', 'C03']}
 
 
 def one(sid, suite):
